@@ -35,6 +35,23 @@ pub fn gen_term(rng: &mut Rng, u: &Universe, nvars: u32, pos: u8) -> Term {
     }
 }
 pub fn gen_triple(rng: &mut Rng, u: &Universe, nvars: u32) -> (Term, Term, Term) {
+    if !u.seeds.is_empty() && rng.below(10) < 7 {
+        // start from a triple that exists and abstract some positions
+        let (s, p, o) = rng.pick(&u.seeds).clone();
+        // the same value is mostly abstracted to the same variable, so that the patterns of one query are jointly satisfiable
+        let mut abs = |c: String, pv: usize, rng: &mut Rng| {
+            if rng.below(100) < pv {
+                if rng.below(10) < 8 {
+                    Term::Var((crate::proto::fnv(&c) % nvars as u64) as u32)
+                } else {
+                    Term::Var(rng.below(nvars as usize) as u32)
+                }
+            } else {
+                Term::Const(c)
+            }
+        };
+        return (abs(s, 70, rng), abs(p, 25, rng), abs(o, 65, rng));
+    }
     (gen_term(rng, u, nvars, 0), gen_term(rng, u, nvars, 1), gen_term(rng, u, nvars, 2))
 }
 pub fn gen_cond(rng: &mut Rng, u: &Universe, vars: &[u32], depth: u32) -> Cond {
@@ -157,12 +174,12 @@ pub fn pat_vars(p: &Pat, out: &mut Vec<u32>) {
 }
 /// `scoped`: keep FILTER/BIND variables certainly bound (mostly well-scoped stream) or allow maybe-bound ones
 pub fn gen_group(rng: &mut Rng, u: &Universe, nvars: u32, depth: u32, scoped: bool, fresh: &mut u32) -> Pat {
-    let n = rng.range(1, 3);
+    let n = if depth >= 2 { rng.range(1, 3) } else { rng.range(1, 2) };
     let mut elems: Vec<Pat> = Vec::new();
     for _ in 0..n {
         let k = rng.below(100);
-        let e = if depth == 0 || k < 45 {
-            let m = rng.range(1, 3);
+        let e = if depth == 0 || k < 50 {
+            let m = rng.range(1, 2);
             Pat::Bgp((0..m).map(|_| gen_triple(rng, u, nvars)).collect())
         } else if k < 60 {
             let b = rng.range(2, 3);
@@ -401,8 +418,8 @@ fn make_stats(kind: &str, db: &kolibrie::sparql_database::SparqlDatabase, u_seed
         "stale" => {
             // statistics of an unrelated dataset over the same vocabulary
             let mut r = Rng::new(u_seed ^ 0x5157);
-            let u = universe(&mut r);
-            let other = build_db(&gen_db(&mut r, &u));
+            let mut u = universe(&mut r);
+            let other = build_db(&gen_db(&mut r, &mut u));
             DatabaseStats::gather_stats_fast(&other)
         }
         _ => {
@@ -492,10 +509,10 @@ impl Prop for C02 {
         }
     }
     fn gen(&self, rng: &mut Rng, _tier: Tier, i: usize, stats: &mut Stats) -> String {
-        let u = universe(rng);
-        let db = gen_db(rng, &u);
+        let mut u = universe(rng);
+        let db = gen_db(rng, &mut u);
         let view = gen_view(rng, &u);
-        let nvars = rng.range(2, 4) as u32;
+        let nvars = rng.range(3, 6) as u32;
         let mut fresh = 10;
         let mut toks: Vec<String> = vec!["plan".into()];
         if i % 3 == 0 {
